@@ -277,7 +277,7 @@ CHECKS = {
         note=COMMON_NOTE + "Don't-care only where the documentation is silent: an explicitly given hidden root, the contents of a "
              "directory (or the target of a link) whose own path is excluded, and files whose listing under -L depends on which "
              "of several overlapping roots reaches a shared directory first (decided by running the reference under depth-first "
-             "orders and 40 random schedules of a work list). Known finding D6 is listed in known_findings.json.",
+             "orders, 60 random schedules of a work list and the deepest-first / shallowest-first ones). Known finding D6 is listed in known_findings.json.",
         design="4/C09"),
     "C12": dict(
         category="exploration",
